@@ -1397,6 +1397,30 @@ def edges(rng, case, idx):
                     viol(['C05', 'C03'], f'C05:refusal_not_ValueError:enzyme_shares_that_add_up_to_one:{type(exc).__name__}', {'concentrations': concs, 'total': tot})
             # (round 17, third wave) the solutes make up the stated total by themselves: no room for the solvent - refused, not
             # answered with a 'solution' that holds the cancellation noise of the difference as its solvent
+            # (round 17, third wave) concentrations *and* quantities that agree, a trace solute listed first or last: served alike
+            M.bucket(case['prop'] + '/edge/E31_consistent_concentrations_and_quantities_in_either_order')
+            pep_, igg_ = S.solid('peptide', 1000.0), S.solid('IgG', 150000.0)
+            for tr_, concs, quants in ((pep_, ['10 pg/L', '9 g/L'], ['10 pg', '9 g']), (pep_, ['100 pg/L', '9 g/L'], ['100 pg', '9 g']), (igg_, ['0.02 pM', '0.15 M'], ['0.02 pmol', '0.15 mol']),
+                                       (pep_, ['10 pg/L', '9 g/L'], ['20 pg', '18 g']), (pep_, ['5 ng/L', '1 g/L'], ['5 ng', '1 g'])):
+                outcomes, said_ = [], ''
+                for order in (0, 1):
+                    sol_ = [tr_, salt] if order == 0 else [salt, tr_]
+                    c_ = concs if order == 0 else concs[::-1]
+                    q_ = quants if order == 0 else quants[::-1]
+                    res, exc = attempt(lambda: C.create_solution(sol_, water, concentration=c_, quantity=q_))
+                    outcomes.append(None if exc is not None else R.measure(res.contents, 'L'))
+                    if exc is not None:
+                        said_ = 'said_not_determined' if 'do not determine' in str(exc) else 'plain_refusal'
+                    if exc is not None and not isinstance(exc, ValueError):
+                        viol(['C05', 'C03'], f'C05:refusal_not_ValueError:concentrations_and_quantities:{type(exc).__name__}', {'concentrations': c_, 'quantities': q_})
+                if cf.q * cf.mol_prefix > 1e-15:
+                    continue        # (coarser mole storage: the trace may be below what is stored)
+                if (outcomes[0] is None) != (outcomes[1] is None):
+                    which_ = 'trace_first' if outcomes[0] is None else 'trace_last'
+                    viol(['C05', 'C03'], f'C05:feasible_request_refused:concentrations_and_quantities:depends_on_the_order_of_the_solutes:{which_}:{said_}',
+                         {'concentrations': concs, 'quantities': quants, 'trace_first_L': outcomes[0], 'trace_last_L': outcomes[1]})
+                elif outcomes[0] is None:
+                    viol(['C05', 'C03'], 'C05:feasible_request_refused:concentrations_and_quantities:consistent', {'concentrations': concs, 'quantities': quants})
             M.bucket(case['prop'] + '/edge/E31_no_room_for_the_solvent')
             glu_ = S.solid('glucose', 180.156)
             for solutes_, kw in [(glu_, {'quantity': f'{v_} mL', 'total_quantity': f'{v_} mL'}) for v_ in (10, 3, 7, 25, 40, 90)] + \
